@@ -45,110 +45,78 @@ def category_ranges(cat):
     return _CAT_CACHE[cat]
 
 
-def _ch(cp):
-    if cp > Z3_MAX_CHAR:
-        raise EngineUnsupported("code point beyond z3 range")
-    return z3.StringVal(chr(cp))
+from . import relang as RL
 
 
-def _union(rs):
-    rs = list(rs)
-    if not rs:
-        return z3.Empty(z3.ReSort(z3.StringSort()))
-    if len(rs) == 1:
-        return rs[0]
-    return z3.Union(*rs)
+def class_rx(name, negate=False):
+    rs = category_ranges(name)
+    return RL.cset(RL.cset_not(rs) if negate else rs)
 
 
-def _range_re(lo, hi):
-    if lo == hi:
-        return z3.Re(_ch(lo))
-    return z3.Range(_ch(lo), _ch(hi))
-
-
-ANYCHAR = z3.AllChar(z3.ReSort(z3.StringSort()))
-
-
-def _set_to_re(items):
-    """items of an IN node -> z3 regex for ONE char"""
+def _set_to_rx(items):
+    """items of an IN node -> rx for ONE char (exact range arithmetic, no solver-side complement)"""
     negate = False
-    parts = []
+    ranges = []
     for op, av in items:
         if op is _sre_c.NEGATE:
             negate = True
         elif op is _sre_c.LITERAL:
-            parts.append(_range_re(av, av))
+            ranges.append((av, av))
         elif op is _sre_c.RANGE:
-            parts.append(_range_re(av[0], av[1]))
+            ranges.append((av[0], av[1]))
         elif op is _sre_c.CATEGORY:
             name = {_sre_c.CATEGORY_SPACE: ("space", False), _sre_c.CATEGORY_NOT_SPACE: ("space", True),
                     _sre_c.CATEGORY_DIGIT: ("digit", False), _sre_c.CATEGORY_NOT_DIGIT: ("digit", True),
                     _sre_c.CATEGORY_WORD: ("word", False), _sre_c.CATEGORY_NOT_WORD: ("word", True)}.get(av)
             if name is None:
                 raise EngineUnsupported("regex category %s" % av)
-            r = _union(_range_re(a, b) for a, b in category_ranges(name[0]))
-            if name[1]:
-                r = z3.Intersect(ANYCHAR, z3.Complement(r))
-            parts.append(r)
+            rs = category_ranges(name[0])
+            ranges.extend(RL.cset_not(rs) if name[1] else rs)
         else:
             raise EngineUnsupported("regex set item %s" % op)
-    r = _union(parts)
-    if negate:
-        r = z3.Intersect(ANYCHAR, z3.Complement(r))
-    return r
+    ranges = [(a, min(b, RL.MAXCP)) for a, b in ranges if a <= RL.MAXCP]
+    merged = RL._merge(ranges)
+    return RL.cset(RL.cset_not(merged) if negate else merged)
 
 
-def _seq_to_re(seq, flags, lookbehind):
+def _seq_to_rx(seq, flags, lookbehind):
+    out = RL.EPS
     parts = []
     for op, av in seq:
         if op is _sre_c.LITERAL:
-            parts.append(z3.Re(_ch(av)))
+            parts.append(RL.cset([(av, av)]))
         elif op is _sre_c.NOT_LITERAL:
-            parts.append(z3.Intersect(ANYCHAR, z3.Complement(z3.Re(_ch(av)))))
+            parts.append(RL.cset(RL.cset_not(((av, av),))))
         elif op is _sre_c.ANY:
-            if flags & _re.DOTALL:
-                parts.append(ANYCHAR)
-            else:
-                parts.append(z3.Intersect(ANYCHAR, z3.Complement(z3.Re(z3.StringVal("\n")))))
+            parts.append(RL.ANY if flags & _re.DOTALL else RL.cset(RL.cset_not(((10, 10),))))
         elif op is _sre_c.IN:
-            parts.append(_set_to_re(av))
+            parts.append(_set_to_rx(av))
         elif op is _sre_c.BRANCH:
-            parts.append(_union(_seq_to_re(alt, flags, lookbehind) for alt in av[1]))
+            parts.append(RL.alt(*[_seq_to_rx(a, flags, lookbehind) for a in av[1]]))
         elif op is _sre_c.SUBPATTERN:
-            parts.append(_seq_to_re(av[3], flags, lookbehind))
+            parts.append(_seq_to_rx(av[3], flags, lookbehind))
         elif op in (_sre_c.MAX_REPEAT, _sre_c.MIN_REPEAT):
             lo, hi, body = av
-            r = _seq_to_re(body, flags, lookbehind)
-            if hi is _sre_c.MAXREPEAT:
-                if lo == 0:
-                    parts.append(z3.Star(r))
-                elif lo == 1:
-                    parts.append(z3.Plus(r))
-                else:
-                    parts.append(z3.Concat(z3.Loop(r, lo, lo), z3.Star(r)))
-            else:
-                parts.append(z3.Loop(r, lo, hi))
+            r = _seq_to_rx(body, flags, lookbehind)
+            parts.append(RL.loop(r, lo, None if hi is _sre_c.MAXREPEAT else hi))
         elif op is _sre_c.AT:
             raise EngineUnsupported("regex anchor inside pattern")
         elif op is _sre_c.ASSERT and av[0] == -1:
             if lookbehind == "drop":      # superset of the language
                 continue
             if lookbehind == "never":     # subset: the alternative containing it never matches
-                parts.append(z3.Empty(z3.ReSort(z3.StringSort())))
+                parts.append(RL.EMPTY)
                 continue
             raise EngineUnsupported("regex look-behind")
         else:
             raise EngineUnsupported("regex construct %s" % op)
-    if not parts:
-        return z3.Re(z3.StringVal(""))
-    if len(parts) == 1:
-        return parts[0]
-    return z3.Concat(*parts)
+    for pr in reversed(parts):
+        out = RL.cat(pr, out)
+    return out
 
 
-def regex_to_z3(pattern, flags=0, lookbehind=None):
-    """(anchored_start, anchored_end, z3 regex of the pattern body).
-    The body regex denotes the set of strings the pattern can consume (full-match language)."""
+def regex_to_rx(pattern, flags=0, lookbehind=None):
+    """(anchored_start, anchored_end, rx of the pattern body = the set of strings the pattern can consume)"""
     parsed = _sre_parser.parse(pattern, flags)
     seq = list(parsed)
     a0 = a1 = False
@@ -159,18 +127,30 @@ def regex_to_z3(pattern, flags=0, lookbehind=None):
         a1 = True
         seq = seq[:-1]
     elif seq and seq[-1][0] is _sre_c.AT and seq[-1][1] is _sre_c.AT_END:
-        # `$` also matches before a trailing newline: handled by the callers that need it
-        a1 = "dollar"
+        a1 = "dollar"     # `$` also matches before a trailing newline
         seq = seq[:-1]
-    return a0, a1, _seq_to_re(seq, parsed.state.flags | flags, lookbehind)
+    return a0, a1, _seq_to_rx(seq, parsed.state.flags | flags, lookbehind)
+
+
+def regex_to_z3(pattern, flags=0, lookbehind=None):
+    a0, a1, rx = regex_to_rx(pattern, flags, lookbehind)
+    return a0, a1, RL.to_z3(rx)
+
+
+def full_language_rx(pattern, flags=0, lookbehind=None):
+    return regex_to_rx(pattern, flags, lookbehind)[2]
 
 
 def full_language(pattern, flags=0, lookbehind=None):
-    a0, a1, r = regex_to_z3(pattern, flags, lookbehind)
-    return r
+    return RL.to_z3(full_language_rx(pattern, flags, lookbehind))
 
 
-ALL = z3.Star(ANYCHAR)
+def contains_rx(rx):
+    return RL.cat(RL.ALL, RL.cat(rx, RL.ALL))
+
+
+ALL = RL.to_z3(RL.ALL)
+ANYCHAR = RL.to_z3(RL.ANY)
 
 # ------------------------------------------------------------------------------------------------
 # re facade
@@ -289,30 +269,30 @@ class SymPattern:
 
     def _re(self, lookbehind=None):
         if lookbehind not in self._cache:
-            self._cache[lookbehind] = regex_to_z3(self._real.pattern, self._real.flags & ~_re.UNICODE, lookbehind)
+            self._cache[lookbehind] = regex_to_rx(self._real.pattern, self._real.flags & ~_re.UNICODE, lookbehind)
         return self._cache[lookbehind]
+
+    def _right(self, a1):
+        if a1 is True:
+            return RL.EPS
+        if a1 == "dollar":
+            return RL.opt(RL.lit("\n"))
+        return RL.ALL
+
+    def contains_rx(self):
+        a0, a1, r = self._re()
+        return RL.cat(RL.EPS if a0 else RL.ALL, RL.cat(r, self._right(a1)))
+
+    def match_rx(self):
+        a0, a1, r = self._re()
+        return RL.cat(r, self._right(a1))
 
     def contains_re(self):
         """z3 regex of the strings in which .search() succeeds"""
-        a0, a1, r = self._re()
-        left = z3.Re(z3.StringVal("")) if a0 else ALL
-        if a1 is True:
-            right = z3.Re(z3.StringVal(""))
-        elif a1 == "dollar":
-            right = z3.Union(z3.Re(z3.StringVal("")), z3.Re(z3.StringVal("\n")))
-        else:
-            right = ALL
-        return z3.Concat(left, r, right)
+        return RL.to_z3(self.contains_rx())
 
     def match_re(self):
-        a0, a1, r = self._re()
-        if a1 is True:
-            right = z3.Re(z3.StringVal(""))
-        elif a1 == "dollar":
-            right = z3.Union(z3.Re(z3.StringVal("")), z3.Re(z3.StringVal("\n")))
-        else:
-            right = ALL
-        return z3.Concat(r, right)
+        return RL.to_z3(self.match_rx())
 
     def search(self, s, *a):
         if not isinstance(s, SymStr):
@@ -374,23 +354,27 @@ class SymFindIter:
 # ------------------------------------------------------------------------------------------------
 # numerals (A4)
 # ------------------------------------------------------------------------------------------------
-_D = z3.Range(z3.StringVal("0"), z3.StringVal("9"))
-_DS = z3.Plus(_D)
-_DOT = z3.Re(z3.StringVal("."))
-_SIGN = z3.Option(z3.Union(z3.Re(z3.StringVal("+")), z3.Re(z3.StringVal("-"))))
-_EXP = z3.Option(z3.Concat(z3.Union(z3.Re(z3.StringVal("e")), z3.Re(z3.StringVal("E"))), _SIGN, _DS))
+_Dx = RL.cset([(48, 57)])
+_DSx = RL.plus(_Dx)
+_DOTx = RL.lit(".")
+_SIGNx = RL.opt(RL.cset([(43, 43), (45, 45)]))
+_EXPx = RL.opt(RL.cat(RL.cset([(101, 101), (69, 69)]), RL.cat(_SIGNx, _DSx)))
+_UNSIGNED_DEC = RL.alt(RL.cat(_DSx, RL.opt(RL.cat(_DOTx, RL.star(_Dx)))), RL.cat(_DOTx, _DSx))
 #: strings over the plain alphabet on which the contracts below are exact
-PLAIN = z3.Star(z3.Union(_D, _DOT, z3.Re(z3.StringVal("+")), z3.Re(z3.StringVal("-")),
-                         z3.Re(z3.StringVal("e")), z3.Re(z3.StringVal("E"))))
+PLAIN_RX = RL.star(RL.cset([(48, 57), (46, 46), (43, 43), (45, 45), (101, 101), (69, 69)]))
 #: decimal.Decimal(str) accepts (restricted to PLAIN): [sign] (digits [. [digits]] | . digits) [exp]
-DECIMAL_OK = z3.Concat(_SIGN, z3.Union(z3.Concat(_DS, z3.Option(z3.Concat(_DOT, z3.Star(_D)))),
-                                       z3.Concat(_DOT, _DS)), _EXP)
+DECIMAL_OK_RX = RL.cat(_SIGNx, RL.cat(_UNSIGNED_DEC, _EXPx))
 #: int(str) accepts (restricted to PLAIN): [sign] digits
-INT_OK = z3.Concat(_SIGN, _DS)
+INT_OK_RX = RL.cat(_SIGNx, _DSx)
+NUMERAL_RX = RL.plus(RL.cset([(48, 57), (46, 46)]))       # the lexer's numeral group [0-9.]+
+PLAIN = RL.to_z3(PLAIN_RX)
+DECIMAL_OK = RL.to_z3(DECIMAL_OK_RX)
+INT_OK = RL.to_z3(INT_OK_RX)
 FLOAT_OK = DECIMAL_OK
 #: what the lexer's numeral group [0-9.]+ can contain and the converters accept
-DECIMAL_OK_UNSIGNED = z3.Union(z3.Concat(_DS, z3.Option(z3.Concat(_DOT, z3.Star(_D)))), z3.Concat(_DOT, _DS))
-INT_OK_UNSIGNED = _DS
+DECIMAL_OK_UNSIGNED = RL.to_z3(_UNSIGNED_DEC)
+INT_OK_UNSIGNED = RL.to_z3(_DSx)
+NUMERAL = RL.to_z3(NUMERAL_RX)
 
 dec_val = z3.Function("dec_val", z3.StringSort(), z3.RealSort())
 dec_norm_str = z3.Function("dec_norm_str", z3.StringSort(), z3.StringSort())
